@@ -108,6 +108,10 @@ class ClientWorld(object):
     def extra_events(self):
         return []
 
+    def mid_events(self, io_default):
+        """Events ordered after network I/O but before application calls and timers."""
+        return []
+
     def do_extra(self, label):
         raise NotImplementedError(label)
 
@@ -184,6 +188,9 @@ class ClientWorld(object):
         io = self.io_events()
         cand = list(io)
         io_default = any(c == Z for _l, c in io)
+        mid = self.mid_events(io_default)
+        cand.extend(mid)
+        io_default = io_default or any(c == Z for _l, c in mid)
         app_left = self.script_pos < len(self.script)
         if app_left:
             op = self.script[self.script_pos]
